@@ -45,6 +45,7 @@ FIXED = [
     ('D31', ['C18', 'C17'], 'an io timer entry only times out the operation it was armed for', 'the io timeout handler takes whatever coroutine is blocked on the socket when it gets there: a handler that loses the cpu between its validity check and co.take() (or an entry that fires late) fails a *later* operation with TimedOut long before its deadline once its own operation ended on another thread meanwhile (fast_schedule, cancel, and since the D2io repair subscribe itself): "read timeout of 5000us fired after 760us". Raised by a fresh-restore quick run of C18 (4-entry random plan), 4 of 4 handshake shards within 90-405 executions, 73 000 clean after the repair'),
     ('D32', ['C16', 'C09', 'C14'], 'a select coroutine whose send meets a cancel does not run its bottom half', 'a cancel (Selector::remove, loser of select!, cqueue drop) between the two cancel checks of EventSender::send / yield_with: no event pushed, nobody polls it, the bottom half runs anyway on a worker thread beside the poller (cq: "removed arm 0: poll delivered 0 events, top halves 1, bottom halves 1"); the harness had tolerated it, a seeded change that widened the window showed it is the same defect'),
     ('D33', ['C01', 'C07', 'C17', 'C18'], 'a worker whose local queue never runs empty starves its event loop', 'coroutines that yield in a loop (polling try_recv, waiting for a flag) keep their workers inside run_queued_tasks for ever: a coroutine made ready through the global queue (sleep ended, unparked / spawned / sent to from a thread), by an io event or an io timeout of that worker never runs again ("the workers executed 4 000 001 yields after the coroutine became ready and it still has not run", 4 of 4 runs, every worker count); in the thorough C07 sweep the try_recv pollers of `dis` spun until the harness log had eaten 17 GB and the OOM killer ended the shard'),
+    ('D34', ['C01', 'C04'], 'spmc bulk_pop works out its range after it has locked the head', 'a stealer stalled between reading head / push index and its CAS in bulk_pop wins the CAS after the head block was freed and re-allocated at the same address with the head back at the same index (ABA) and claims beyond the owner\'s tail: it sleeps in the "wait there is enough data" loop holding the tasks in front of the unpublished slots, the owner spins on a queue that is neither empty nor poppable; with no more work for that worker the coroutines in the claimed slots never run (spawnp: "watchdog 25s without quiescence (threads \'SRSS\')", 13 of 16 shards with a stall at SPMC_BULK_LOADED, once without any stall in joinrace)'),
 ]
 
 KNOWN = [
